@@ -609,7 +609,10 @@ func (in *Interp) builtin(fr *frame, b *ssa.Builtin, c *ssa.CallCommon, args []V
 		}
 		return Iface{}
 	}
-	panic(unsupported("builtin " + b.Name() + fmt.Sprintf(" %T", args[0])))
+	if len(args) == 0 {
+		panic(unsupported("builtin " + b.Name() + " in " + fr.fn.String()))
+	}
+	panic(unsupported("builtin " + b.Name() + fmt.Sprintf(" %T", args[0]) + " in " + fr.fn.String()))
 }
 
 func (in *Interp) doSelect(fr *frame, x *ssa.Select) V {
